@@ -489,3 +489,10 @@ CORPUS += [
     V("C08", "tour-length-smoothing-epsilon", _OPS, "    return get_distance(ordered_locs_next, ordered_locs).sum(-1)\n",
       "    return ((ordered_locs_next - ordered_locs).pow(2).sum(-1) + 1e-8).sqrt().sum(-1)\n", "C08.j"),
 ]
+CORPUS += [
+    # F55 repaired at either site: the clause must be silent (and the old guard clause must accept the stricter guard)
+    V("C20", "eq-f55-repaired-wrap-only-when-the-inner-baseline-applies-alone", _BLS, "        if self.alpha > 0:\n            return self.baseline.wrap_dataset(dataset, *args, **kw)",
+      "        if self.alpha == 1:\n            return self.baseline.wrap_dataset(dataset, *args, **kw)", None),
+    V("C20", "warmup-wraps-from-the-start", _BLS, "        if self.alpha > 0:\n            return self.baseline.wrap_dataset(dataset, *args, **kw)",
+      "        if self.alpha >= 0:\n            return self.baseline.wrap_dataset(dataset, *args, **kw)", "C20.d"),
+]
